@@ -110,18 +110,3 @@ func c13Observe(s *Session, d *c13Dispatcher, id uint32) (e c13Effect) {
 	e.posted = len(d.posted)
 	return
 }
-
-func H_C13_chunking() {
-	role := vfShape("role", 0, 3)
-	n := vfShape("len", 0, 32)
-	cut := vfShape("cut", 0, n)
-	buf := vfBytes(n)
-	id := vfU32()
-
-	// whole
-	s1, d1 := c13Session(role)
-	delete(s1.streams, s1.streams[0x0].StreamID())
-	_ = id
-	vfPrune()
-	_, _, _, _ = s1, d1, cut, buf
-}
